@@ -25,6 +25,7 @@ type segConn struct {
 	closed bool
 	wrote  bytes.Buffer
 	ch     chan struct{}
+	taken  int // bytes handed to readers so far
 }
 
 func newSegConn() *segConn { return &segConn{ch: make(chan struct{}, 1<<16)} }
@@ -41,6 +42,7 @@ func (c *segConn) Read(p []byte) (int, error) {
 		c.mu.Lock()
 		if len(c.segs) > 0 {
 			n := copy(p, c.segs[0])
+			c.taken += n
 			if n < len(c.segs[0]) {
 				c.segs[0] = c.segs[0][n:]
 			} else {
@@ -286,6 +288,13 @@ func (s *framerSys) Check(e Edge, obs []Obs) []Mismatch {
 			if err, _ := obs[0]["err"].(error); err != nil {
 				ms = append(ms, Mismatch{"framer", fmt.Sprintf("BindConnection failed on a success reply split at %v: %v", e.A["k"], err)})
 			}
+		}
+		// "any data after [the reply] belongs to the user": exactly the reply's bytes may have been taken
+		s.conn.mu.Lock()
+		taken := s.conn.taken
+		s.conn.mu.Unlock()
+		if taken > len(s.frames[0]) {
+			ms = append(ms, Mismatch{"framer", fmt.Sprintf("BindConnection took %d bytes from the data connection, the reply has %d: bytes that belong to the application were swallowed", taken, len(s.frames[0]))})
 		}
 		if len(obs) > 0 {
 			s.got = 1
